@@ -77,7 +77,11 @@ Fixpoint node_eqb (a b : enode nat nat) : bool :=
 Definition region_eqb (a b : eregion nat nat) : bool :=
   node_eqb (ENode OInvalid 0 [] [] [a] [] []) (ENode OInvalid 0 [] [] [b] [] []).
 
-Definition valid_all (h : hugr) : bool := valid_b h && valid_order_b h && stars_b h.
+(* the guard of the theorems of props/C12.v, all of it: valid_b (clauses 1-5, 7), valid_order_b and
+   order_ports_b (clause 6), stars_b (clause 4), cfg_entries_b (totality: with valid_b the export raises
+   exactly when this fails, C12_export_total_iff) *)
+Definition valid_all (h : hugr) : bool :=
+  valid_b h && valid_order_b h && stars_b h && order_ports_b h && cfg_entries_b h.
 
 (* correspondence: the implementation's module equals the model's up to renaming (and both fail
    together); a HUGR the generator built as a valid module meets the guard of the theorems *)
@@ -89,10 +93,12 @@ Definition corr (c : case) : bool :=
       | None, None => true
       | Some m, Some o =>
           region_eqb (canon port_eqb Z.eqb m) (canon N.eqb N.eqb o) &&
-          (* the clauses that are not (fully) theorems are also evaluated on the model's module *)
+          (* clause 6 (a theorem since the second pass) stays evaluated on the model's module *)
           (if valid_all h then order_hints_complete_and_keyed h m else true)
       | _, _ => false
-      end
+      end &&
+      (* totality (C12_export_total): under the guard the model does not fail *)
+      (if valid_all h then match to_model h with Some _ => true | None => false end else true)
   end.
 
 (* monitor: the specification evaluated on what the implementation returned *)
@@ -136,3 +142,16 @@ Definition k4 := on_obs (fun h o => single_producer_or_single_consumer N.eqb h o
 Definition k5 := on_obs (fun h o => applied_symbols_defined N.eqb h o).
 Definition k6 := on_obs (fun h o => order_hints_complete_and_keyed h o).
 Definition k7 := on_obs (fun h o => metadata_carried h o).
+
+(* which part of the guard a case meets (reported per run by the harness: how many generated modules
+   satisfy the guard of which theorem) *)
+Definition on_h (f : hugr -> bool) (c : case) : bool := match c with CExport h _ _ => f h end.
+Definition g_valid := on_h valid_b.
+Definition g_order := on_h valid_order_b.
+Definition g_ports := on_h order_ports_b.
+Definition g_stars := on_h stars_b.
+Definition g_cfg := on_h cfg_entries_b.
+Definition g_hints := on_h valid_hints_b.
+Definition g_total := on_h valid_total_b.
+Definition g_all := on_h valid_all.
+Definition g_noerr := on_h (fun h => negb (export_err h)).
